@@ -99,8 +99,11 @@ Proof.
   destruct (mem x (children_of s r)); cbn [fst] in *; [split; [exact T' | left; reflexivity] | split; assumption].
 Qed.
 
+Lemma good_remove_attrs s e sel : Good s -> Good (fst (remove_attrs s e sel)).
+Proof. intros [T _]. split; [apply remove_attrs_inv; exact T | left; reflexivity]. Qed.
+
 Lemma good_remove_attribute s e name : Good s -> Good (fst (remove_attribute s e name)).
-Proof. intros [T _]. split; [apply remove_attribute_inv; exact T | left; reflexivity]. Qed.
+Proof. apply good_remove_attrs. Qed.
 
 Lemma good_dom_set_attribute_node w k s e a : Good s -> Good (fst (dom_set_attribute_node w k s e a)).
 Proof.
@@ -109,7 +112,7 @@ Proof.
   destruct (parent_of s (snd a)); [split; assumption|].
   destruct (get s (snd a)) as [ait|]; [|split; assumption].
   destruct (kind_eqb (ikind ait) KAt && has_kind s KEl e); [|split; assumption].
-  destruct (remove_attribute s e (ilocal ait)) as [s1 old]. cbn [fst] in *.
+  destruct (remove_attribute_q s e (iprefix ait) (ilocal ait)) as [s1 old]. cbn [fst] in *.
   split; [exact T' | left; reflexivity].
 Qed.
 
@@ -120,24 +123,20 @@ Proof.
   destruct (add_values (detach_values s a) a l); cbn [fst] in *; [split; [exact T' | left; reflexivity] | split; assumption].
 Qed.
 
-Lemma good_insert_data s n k off d : Good s -> Good (fst (insert_data s n k off d)).
+Lemma good_edit_data s n k off cnt x : Good s -> Good (fst (edit_data s n k off cnt x)).
 Proof.
-  intros G. unfold insert_data. destruct (len (data_of s n) <? off); [exact G|].
-  destruct (valid_for k d); cbn [fst]; [apply good_set_str; exact G | exact G].
+  intros G. unfold edit_data. destruct (len (data_of s n) <? off); [exact G|].
+  destruct (valid_str k _); cbn [fst]; [apply good_set_str; exact G | exact G].
 Qed.
+
+Lemma good_insert_data s n k off d : Good s -> Good (fst (insert_data s n k off d)).
+Proof. apply good_edit_data. Qed.
 
 Lemma good_delete_data s n off cnt : Good s -> Good (fst (delete_data s n off cnt)).
-Proof.
-  intros G. unfold delete_data.
-  destruct (len (data_of s n) <? off); cbn [fst]; [exact G | apply good_set_str; exact G].
-Qed.
+Proof. intros G. unfold delete_data. destruct (kind_of s n); [apply good_edit_data; exact G | exact G]. Qed.
 
 Lemma good_replace_data s n k off cnt d : Good s -> Good (fst (replace_data s n k off cnt d)).
-Proof.
-  intros G. unfold replace_data. pose proof (good_delete_data s n off cnt G) as H.
-  destruct (delete_data s n off cnt) as [s1 o]. cbn [fst] in H.
-  destruct o; try exact H. apply good_insert_data. exact H.
-Qed.
+Proof. apply good_edit_data. Qed.
 
 Lemma good_pi_set s n d : Good s -> Good (fst (pi_set s n d)).
 Proof.
@@ -175,7 +174,7 @@ Proof.
   - apply good_info_insert_before; assumption.
   - apply good_info_append; assumption.
   - apply good_info_delete; assumption.
-  - apply good_remove_attribute; assumption.
+  - apply good_remove_attrs; assumption.
   - apply good_dom_set_attribute_node; assumption.
   - apply good_set_values; assumption.
   - apply good_create; assumption.
@@ -192,7 +191,7 @@ Proof.
   - apply good_info_insert_before; assumption.
   - apply good_info_append; assumption.
   - apply good_info_delete; assumption.
-  - apply good_remove_attribute; assumption.
+  - apply good_remove_attrs; assumption.
   - apply good_dom_set_attribute_node; assumption.
   - apply good_set_values; assumption.
   - apply good_create; assumption.
